@@ -58,3 +58,30 @@ CONFIGS["C21"] = dict(
                  "an attempt exactly at the expiry instant is not judged"],
     required_probes=["validations"],
 )
+
+CONFIGS["C22"] = dict(
+    prop="C22", engine="jwt-hist", pkg="internal/server/oauth", harness="C22",
+    level="exploration",
+    level_text="seeded search over histories x fault sequences: JWTs minted with every combination of signing key (published / "
+               "published later / never published / RSA), algorithm (matching, HS256 keyed with the public key, none, "
+               "mismatched), kid, iss, aud, exp and jti are presented to the real ValidateJWT before and after revocation, "
+               "un-revocation, cache purge, cache/JWKS TTL expiry, token expiry and key rotation, while the simulated identity "
+               "provider behind the transport seam is up, down or slower than the client's timeout; safety oracle: accepted "
+               "implies every condition of the statement holds at that moment; a narrow bounded-liveness oracle: a fully valid "
+               "token is accepted while the IdP is reachable.",
+    technique="deterministic simulation: fake clock, simulated IdP over the HTTP transport seam with injected unavailability/timeouts, history oracle",
+    rewrite=dict(dirs=ALL_INTERNAL, consts=ARGON_KNOB),
+    extra_files=[CACHES_EXPORT, TOKENS_EXPORT],
+    race="none",
+    quick=dict(runs=3000, per_proc=200, budget_s=240),
+    thorough=dict(runs=200000, per_proc=2000, budget_s=1500),
+    det_seeds=24,
+    rule="histories of 3-9 phases x 1-3 operations (mint/present/revoke/un-revoke/purge/rotate/IdP up-down-slow) over 4 token "
+         "slots with 1-2 client tasks, boundary-biased time advances (30 s refresh throttle, 5 m / 1 h TTL, 10 m / 2 h token "
+         "lifetimes); non-trivial = >=2 presentations; distinct = distinct (scheduler decisions, outcomes) hash",
+    real=["oauth.ValidateJWT, parseAndValidateJWT, selectVerificationKey, JWKS cache/refresh/throttle", "golang-jwt/v5", "tokens revocation list on SQLite", "caches"],
+    stubbed=["identity provider: simulated node behind http.DefaultTransport (existing seam)", "oauth.Initialize is bypassed: configuration and JWKS URL are set directly (discovery not exercised)",
+             "time: synctest fake clock", "sync: scheduling shim"],
+    assumptions=["acceptance is only demanded for tokens whose kid names a key published from the start, while the IdP is reachable"],
+    required_probes=["presentations", "accepted", "idp-unreachable-or-timeout"],
+)
